@@ -6,6 +6,7 @@ CONSTANTS
   MoveKeepsSize = TRUE
   ObserveMoved = FALSE
   Targets <- Both
+  SplitNext = FALSE
   OtherSeqs <- NoOther
 CONSTRAINT SizeBound
 VIEW absview
